@@ -139,7 +139,7 @@ class C03(Prop):
     assumptions = ['vkit/simdist semantics (per-group issue-order matching, non-members get None) as checked against gloo',
                    'programs are valid by construction: loads at step boundaries, compute_inverses=False / include_factors=False only where the documentation allows it']
     examples = {'quick': 100, 'thorough': 600}
-    shards = {'quick': 4, 'thorough': 16}
+    shards = {'quick': 8, 'thorough': 16}
     shrink_budget_s = {'quick': 30.0, 'thorough': 180.0}
     required_labels = {'quick': ['nontrivial=True', 'has_load=True', 'subset_query=True', 'strategy=HYBRID', 'kind=gpt', 'kind=kaisa', 'kind=hashseed', 'has_sched=True', 'subset_reload=True'],
                        'thorough': ['nontrivial=True', 'has_load=True', 'subset_query=True', 'strategy=HYBRID', 'strategy=MEM', 'strategy=COMM']}
